@@ -68,6 +68,9 @@ def run(ctx: Ctx) -> None:
 
     c04.run(Alias(ctx, "C03.R12", "closure is absorbed, not raised: no closure-class exception (completed/closed buffer, forgotten stream, h2 stream errors, transport failures) escapes the protocols' stream_send into the application's send (C04.R1 on the stream_send / protocol_send roots)", only={"C04.R1"}, where=["stream_send", "protocol_send", "StreamBuffer"]))
 
+    from . import c16
+
+    c16.run(Alias(ctx, "C03.R13", "both workers realise the same write path, read loop and close sequence (C16 skeletons for TCPServer.protocol_send/_read_data/_close/_initiate_server_close)", only={"C16.R2"}, where=["TCPServer.protocol_send", "TCPServer._read_data", "TCPServer._close", "TCPServer._initiate_server_close"]))
     ctx.assume("not decided: interleavings in which a handle() suspended at an await resumes after another task closed the stream (needs schedule exploration); only the structural guard (closed set before the first await) is checked")
     from . import typestate_rules
 
